@@ -178,6 +178,30 @@ func GenProgram(t *rapid.T, cfg GenCfg) Program {
 			} else {
 				p.Ops = append(p.Ops, Op{K: "revert", Sel: rapid.IntRange(0, 15).Draw(t, "sel"), On: rapid.IntRange(0, 2).Draw(t, "orphan") == 0})
 			}
+		case "delpunch":
+			// a user snapshot that is already there when the replica is (re)opened, a second
+			// one taken afterwards, automatic snapshots on top, a deletion, and then
+			// overwrites of what the second user snapshot owns - with reclamation on, the
+			// overwrite punches older copies above the latest user snapshot only
+			u1, u2 := fmt.Sprintf("s%d", len(names)), fmt.Sprintf("s%d", len(names)+1)
+			a1, a2 := fmt.Sprintf("s%d", len(names)+2), fmt.Sprintf("s%d", len(names)+3)
+			names = append(names, u1, u2, a1, a2)
+			nsnaps += 4
+			p.Ops = append(p.Ops, Op{K: "punch", On: true}, genWrite(t, size), Op{K: "snap", Name: u1, User: true})
+			if rapid.IntRange(0, 3).Draw(t, "reopenu1") > 0 {
+				p.Ops = append(p.Ops, Op{K: rapid.SampledFrom([]string{"reopen", "reload"}).Draw(t, "how"), On: rapid.Bool().Draw(t, "preload")})
+			}
+			w := genWrite(t, size)
+			p.Ops = append(p.Ops, w, Op{K: "snap", Name: u2, User: true}, genWrite(t, size), Op{K: "snap", Name: a1},
+				genWrite(t, size), Op{K: "snap", Name: a2}, genWrite(t, size), Op{K: "setcp", On: true},
+				Op{K: "remove", Sel: rapid.IntRange(0, 15).Draw(t, "sel")})
+			// overwrite what u2 captured (same place, whole blocks around it)
+			ow := w
+			ow.Off, ow.Len, ow.Seed = w.Off/8*8, (w.Len+15)/8*8, rapid.IntRange(1, 250).Draw(t, "owseed")
+			if ow.Off+ow.Len > int64(size)*8 {
+				ow.Len = int64(size)*8 - ow.Off
+			}
+			p.Ops = append(p.Ops, ow, genWrite(t, size))
 		case "orphanseq":
 			// two snapshots, a revert to the older one (the newer one leaves the live
 			// chain, its files stay), possibly a grow and more writes, then a revert
